@@ -117,6 +117,20 @@ LANGS = {
                  decoys=['s%d: "<block name=decoy>"', "t%d: '</block>'", 'm%d: |\n  # <block name="ml">\n  # </block> x']),
 }
 
+# Comments that live in the *code* part of a string interpolation (or of code embedded in markup): genuine comments although an
+# ancestor node is a string / template / markup node. (text before, comment form, text after; %d = unique number)
+INTERP = {
+    "javascript": [("const i%d = `x ${ ", C_BLOCK, " 1 } y`;"), ("const k%d = `x ${ 1 ", C_LINE, "\n} y`;")],
+    "typescript": [("const i%d = `x ${ ", C_BLOCK, " 1 } y`;"), ("const k%d = `x ${ 1 ", C_LINE, "\n} y`;")],
+    "tsx": [("const i%d = `x ${ ", C_BLOCK, " 1 } y`;"), ("const j%d = <div>{", C_BLOCK, "}</div>;")],
+    "bash": [('v%d="$(\n  ', HASH, '\n  echo a\n)"')],
+    "python": [('i%d = f"""x {1  ', HASH, '\n} y"""')],
+    "ruby": [('i%d = "x #{1 ', HASH, '\n} y"')],
+    "kotlin": [('val i%d = "x ${ ', C_BLOCK, ' 1 } y"')],
+    "c_sharp": [('var i%d = $"x { ', C_BLOCK, ' 1 } y";')],
+    "php": [("?><p><?php ", C_BLOCK, " echo 1; ?></p><?php")],
+}
+
 for _name, _l in LANGS.items():
     _l.setdefault("prologue", [])
     _l.setdefault("epilogue", [])
